@@ -4,7 +4,7 @@ from .. import interrupt
 RULE = ("as C12, with failures instead of kills: OSError(ENOSPC) raised by DataFrame.to_csv (at creation and after a partial write), os.replace, "
         "h5py File create / create_dataset / Dataset.__setitem__ / flush / close of overlap and result files, RuntimeError in the k-th per-gene "
         "overlap step of a worker and in the k-th summation task of the merge, in the main process and in pool workers; single faults and "
-        "pairs (two failed runs in a row). Each faulted run must exit non-zero (the modelling assumption of C17's first sentence, checked here); "
+        "pairs (two failed runs in a row). Each faulted run must exit non-zero (C17's first sentence: a theorem about the translated control flow, Props/C17code.v, and checked here on the real command line); "
         "the directory left behind must be a crash state of Model.Cache with atomic intermediates; the clean re-run is compared with the model "
         "and must give the uninterrupted run's result files or exit non-zero. non-trivial = scenario with a history; distinct = (scenario, fault points)")
 
